@@ -10,7 +10,7 @@ from fractions import Fraction
 
 from . import terms as tm
 from .values import (Sym, SInt, SBool, SStr, SReal, SDec, SErr, Obj, SymSeq, Unsupported,
-                     dec_term, is_sym, SComplex)
+                     dec_term, is_sym, SComplex, OpaqueVal)
 
 NUMERIC = (SInt, SBool, SReal)
 STRINGY = (SStr, SDec)
@@ -19,7 +19,7 @@ STRINGY = (SStr, SDec)
 def is_concrete(v, depth=0):
     if isinstance(v, (Sym, SymSeq, Obj)):
         return False
-    if type(v).__name__ in ('OpaqueVal', 'OpaqueFn', 'ArrVal'):
+    if type(v).__name__ in ('OpaqueVal', 'OpaqueFn', 'ArrVal', 'MatchVal'):
         return False
     if type(v).__name__ in ('DateVal', 'DeltaVal'):
         return False
@@ -739,6 +739,12 @@ def _norm_index(interp, k, n):
     """Clamp a slice bound python-style."""
     if k.is_const and k.val >= 0:
         return tm.mk_ite(tm.mk_lt(n, k), n, k)
+    if not k.is_const:
+        # bounds the path already confines to 0 <= k <= n need no clamping (decided by the feasibility solver; an
+        # undecided query keeps the general form)
+        ctx = interp.ctx
+        if not ctx.feasible([tm.mk_lt(k, tm.const(0))]) and not ctx.feasible([tm.mk_lt(n, k)]):
+            return k
     neg = tm.mk_add(k, n)
     return tm.mk_ite(tm.mk_lt(k, tm.const(0)),
                      tm.mk_ite(tm.mk_lt(neg, tm.const(0)), tm.const(0), neg),
@@ -903,6 +909,34 @@ def call_method(interp, o, name, args, kwargs):
     raise Unsupported('method %s of %r' % (name, o))
 
 
+class MatchVal(OpaqueVal):
+    """A regex match object of which only its existence (truthiness) is known."""
+
+
+def regex_match(interp, pat, how, s):
+    """pattern.match(s) / pattern.fullmatch(s) on a symbolic string: forks on membership in the pattern's language;
+    the match object is opaque (only its truth is known).  Patterns with inner anchors, look-arounds, back-references
+    are outside the subset (ValueError -> Unsupported)."""
+    import re as _re
+    from .regex2smt import match_language, regex_to_smt
+    flags = pat.flags
+    if flags & (_re.MULTILINE | _re.DOTALL | _re.VERBOSE):
+        raise Unsupported('regex flags %r' % flags)
+    ic = bool(flags & _re.IGNORECASE)
+    if not is_str(s):
+        interp.raise_(TypeError, 'expected string or buffer')
+    try:
+        lang = match_language(pat.pattern, ic) if how == 'match' else None
+        if lang is None:
+            raise ValueError('fullmatch')
+    except ValueError as ex:
+        raise Unsupported('regex %r: %s' % (pat.pattern, ex))
+    t = tm.T('str.in_re', (str_term(interp, s), tm.T('re', (), 'RegLan', lang)), tm.BOOL)
+    if interp.ctx.branch(t):
+        return MatchVal('match(%s)' % pat.pattern)
+    return None
+
+
 def seq_index(interp, o, item, *rest):
     if rest:
         raise Unsupported('index with start')
@@ -949,9 +983,18 @@ def _upper_term(interp, t):
     r = tm.app('upper', (t,), tm.STR)
     if r not in interp.ctx.dec_seen:
         interp.ctx.dec_seen.add(r)
-        interp.ctx.axioms.append(tm.mk_eq(tm.mk_len(r), tm.mk_len(t)))
+        # str.upper() is a character-wise homomorphism (no context rules, unlike lower()): it is idempotent, maps only
+        # the empty string to the empty string, and neither creates nor removes the ASCII punctuation below (it may
+        # change the length: 'ß' -> 'SS').  Validated over every code point by C04's stage A:upper-axioms.
         interp.ctx.axioms.append(tm.mk_eq(tm.app('upper', (r,), tm.STR), r))
+        interp.ctx.axioms.append(tm.mk_eq(tm.mk_eq(r, tm.const('')), tm.mk_eq(t, tm.const(''))))
+        for ch in UPPER_STABLE:
+            interp.ctx.axioms.append(tm.mk_eq(tm.T('str.contains', (r, tm.const(ch)), tm.BOOL),
+                                              tm.T('str.contains', (t, tm.const(ch)), tm.BOOL)))
     return r
+
+
+UPPER_STABLE = "[]'!:/ "
 
 
 def _lower_term(interp, t):
@@ -981,9 +1024,39 @@ def str_method(interp, s, name, args, kwargs):
     if name == 'endswith' and len(args) == 1 and is_str(args[0]):
         return SBool(tm.T('str.suffixof', (str_term(interp, args[0]), t), tm.BOOL))
     if name == 'replace' and len(args) == 2:
-        return SStr(tm.T('str.replace_all', (t, str_term(interp, args[0]), str_term(interp, args[1])), tm.STR))
+        a, b = str_term(interp, args[0]), str_term(interp, args[1])
+        r = tm.T('str.replace_all', (t, a, b), tm.STR)
+        if a.is_const and b.is_const and a.val and not r.is_const and r not in interp.ctx.dec_seen:
+            interp.ctx.dec_seen.add(r)
+            # every character of the result comes from the subject or from the replacement text (theorem, stated to
+            # spare the solver the induction)
+            for ch in UPPER_STABLE:
+                if ch not in b.val:
+                    interp.ctx.axioms.append(tm.mk_implies(tm.T('str.contains', (r, tm.const(ch)), tm.BOOL),
+                                                           tm.T('str.contains', (t, tm.const(ch)), tm.BOOL)))
+        return SStr(r)
     if name == 'find' and len(args) == 1:
-        return SInt(tm.T('str.indexof', (t, str_term(interp, args[0]), tm.const(0)), tm.INT))
+        a = str_term(interp, args[0])
+        r = tm.T('str.indexof', (t, a, tm.const(0)), tm.INT)
+        if a.is_const and len(a.val) == 1 and t.op == 'str.++':
+            # first occurrence of a character in a concatenation: if no part before the first literal part holding it
+            # contains it, the index is the length of those parts plus the offset in the literal (theorem)
+            before, free = [], []
+            for part in t.args:
+                if part.is_const:
+                    o = part.val.find(a.val)
+                    if o >= 0:
+                        pos = tm.const(o)
+                        for b in before:
+                            pos = tm.mk_add(pos, tm.mk_len(b))
+                        if all(interp.ctx._on_path(c) for c in free):
+                            return SInt(pos)
+                        interp.ctx.axioms.append(tm.mk_implies(tm.mk_and(*free), tm.mk_eq(r, pos)))
+                        break
+                else:
+                    free.append(tm.mk_not(tm.T('str.contains', (part, a), tm.BOOL)))
+                before.append(part)
+        return SInt(r)
     if name == 'count':
         raise Unsupported('str.count on symbolic string')
     if name == 'format':
